@@ -191,11 +191,13 @@ theorem prepInputs_sameGraph (h : Heap) (us : List Nat) (parent : Option Nat) :
   split
   · exact sameGraph_foldl _ (hstep none) us h
   · rename_i p
-    have s0 : SameGraph h (if (h.t p).base.isSome ∧ (h.t p).creator.isNone then h.modT p ({ · with base := none }) else h) := by
-      split
-      · exact sameGraph_modT _ _ _ (fun _ => rfl)
-      · exact SameGraph.refl h
-    exact s0.trans (sameGraph_foldl _ (hstep _) us _)
+    have sg : SameGraph h (gradPropObj h.fuel h p).1 := by
+      obtain ⟨_, n, o, tt⟩ := gradPropObj_frame h.fuel h p
+      exact ⟨fun t => (tt t).1, fun f => by simp only [Heap.op, o], n⟩
+    refine SameGraph.trans ?_ (sameGraph_foldl _ (hstep _) us _)
+    split
+    · exact sg.trans (sameGraph_modT _ _ _ (fun _ => rfl))
+    · exact SameGraph.refl h
 
 /-- what `recordOp` does to the graph part of the heap -/
 theorem recordOp_spec (h : Heap) (kind : Kind) (vars us : List Nat) (c : Bool) (constant : Option Bool)
